@@ -12,7 +12,7 @@ probe there, so a use-after-free of the freed state aborts the replay)."""
 import os
 
 import vlib
-from framework import graph_replay
+from framework import graph_replay, replay_tlc_trace
 
 ALL_MODES = ["fn", "fnsync", "retfut", "async", "asyncsync", "setval", "setexc", "late"]
 ALL_KINDS = ["val", "exc", "drop", "dtor"]
@@ -66,10 +66,10 @@ def proj(st):
     }
 
 
-def constants(H, modes, kinds, co, bl, cb, po, copies, handles, variant="code"):
+def constants(H, modes, kinds, co=(), bl=(), cb=(), po=(), copies=1, handles=2, variant="code", fixed=True):
     return {"H": sset(H), "Ctor": '"%s"' % H[0], "Modes": sset(modes), "RKinds": sset(kinds), "HCo": sset(co),
             "HBl": sset(bl), "HCb": sset(cb), "HPoll": sset(po), "MaxCopies": str(copies), "MaxHandles": str(handles),
-            "Variant": '"%s"' % variant}
+            "Variant": '"%s"' % variant, "Fixed": "TRUE" if fixed else "FALSE"}
 
 
 def run_cfg(ctx, rp, tag, H, modes, kinds, co=(), bl=(), cb=(), po=(), copies=1, handles=2, max_paths=None,
@@ -103,6 +103,41 @@ def broken_variant_must_fail(ctx, tag, variant, invariant):
     ctx.extra.setdefault("broken_variants_rejected", []).append("%s violates %s" % (variant, invariant))
 
 
+SHL_KEY = "shared_future_shl_untraced"
+
+
+def check_shl(ctx, rp, env):
+    """shared_future::operator<< (shared_future.h:197-202).  The model of the code as found (Fixed = FALSE:
+    the future in the state is replaced, the tracer is not charged) violates AliveWhilePending.  Decide on
+    the real code: replay the counterexample.  Followed step by step -> the defect is in the tree
+    (violation / known finding).  Not followed -> the tree must conform to the repaired model (Fixed =
+    TRUE: init_if_needed, result_of, `if (pending()) charge`)."""
+    cfg = os.path.join(vlib.BUILD, "C17_shlcex.cfg")
+    vlib.write_cfg(cfg, "SPECIFICATION Spec\nINVARIANTS AliveWhilePending\nCHECK_DEADLOCK FALSE\n",
+                   constants(["h1"], ["shl"], ["val"], fixed=False))
+    res = ctx.tlc("SharedFuture", "SharedFuture", cfg, "shlcex", workers=1)
+    try:
+        os.remove(cfg)
+    except OSError:
+        pass
+    if not res.violation:
+        raise vlib.MachineryError("the as-found model of shared_future::operator<< is expected to violate AliveWhilePending")
+    followed, out, text = replay_tlc_trace(ctx, res, rp, proj, {"H": ["h1"], "ctor": "h1"}, "shl")
+    ctx.extra["operator_shl_as_found_counterexample_followed_by_code"] = followed
+    if followed:
+        ctx.violation(SHL_KEY,
+                      "shared_future::operator<< (shared_future.h:197-202) replaces the future in the shared state but "
+                      "never charges the resolve tracer: `shared_future<T> f; f.init_if_needed(); f << fn_returning_pending_future;` "
+                      "then dropping every handle destroys and frees the state while it is still pending (debug build: assert "
+                      "'Destroy of pending future'); the promise later writes into freed memory (future.h:555).  TLC "
+                      "counterexample of the as-found model (Fixed = FALSE) violating AliveWhilePending, %d steps, followed step by "
+                      "step by the real code." % (len(res.trace) - 1), text + "#" + out.replace("\n", "\n#") + "\n")
+        return False
+    run_cfg(ctx, rp, "shl", ["h1"], ["shl"], ALL_KINDS, co=["h1"], bl=["h1"], po=["h1"], copies=1, handles=2, env=env,
+            max_paths=1500 if ctx.quick else None, must=["PrePload"])
+    return True
+
+
 def tlc_only(ctx, tag, H, modes, kinds, **kw):
     """exhaustive TLC run of a configuration too large to dump and replay"""
     cfg = os.path.join(vlib.BUILD, "C17_%s.cfg" % tag)
@@ -125,6 +160,7 @@ def run(ctx):
     h1, h2 = ["h1"], ["h1", "h2"]
     broken_variant_must_fail(ctx, "v1", "notracer", "AliveWhilePending")
     broken_variant_must_fail(ctx, "v2", "noreset", "AtEnd")
+    check_shl(ctx, rp, env)
     seq_must = ["LateInit", "NullPoll", "PrePload", "PreFence", "PreFinal", "PreDload", "Copy"]
     if ctx.quick:
         ctx.exhaustive = False
